@@ -26,6 +26,9 @@ type FaultReader struct {
 	Delay   time.Duration
 	Err     error
 	OnByte  func(delivered int)
+	// Block, if set, makes every Read wait until the channel is closed (a terminal, a socket or a
+	// pipe whose producer says nothing); afterwards the reader behaves as configured
+	Block   chan struct{}
 	pos     int
 	Failed  int // number of times Err was returned
 	Reads   int
@@ -33,6 +36,9 @@ type FaultReader struct {
 }
 
 func (f *FaultReader) Read(p []byte) (int, error) {
+	if f.Block != nil {
+		<-f.Block
+	}
 	f.mu.Lock()
 	defer f.mu.Unlock()
 	f.Reads++
@@ -91,6 +97,7 @@ type RecWriter struct {
 	Transient  bool // only the write with index FailAt fails; later writes succeed again
 	Yield      bool
 	Delay      time.Duration
+	DelayPerKB time.Duration // additional time per 1024 bytes of a write: a consumer with a bandwidth
 	Failed     int
 	Err        error // what a failing write returns (nil = ErrWriter)
 	Concurrent int // max concurrent Write calls observed (must stay 1)
@@ -114,7 +121,7 @@ func (w *RecWriter) Write(p []byte) (int, error) {
 	}
 	i := w.Writes
 	w.Writes++
-	yield, delay := w.Yield, w.Delay
+	yield, delay := w.Yield, w.Delay+w.DelayPerKB*time.Duration(len(p))/1024
 	cb := w.OnWrite
 	w.mu.Unlock()
 
